@@ -122,9 +122,12 @@ def main():
         out['sections'] = {str(i): sha(secs.get(i, b'')) for i in (1, 2, 3, 4)}
         out['listing'] = sha(co.listing)
         runs = []
-        for rep in range(2):
+        for rep in range(4):
             with contextlib.redirect_stdout(sink):
-                sim = Sim(ModInfo(co.bytes), job.get('script'), budget=40000)
+                # runs 0,1: simulated peripherals; runs 2,3: the repository's
+                # real base peripherals (own Random(0) generator)
+                sim = Sim(ModInfo(co.bytes), job.get('script'), budget=40000,
+                          impl_kind='sim' if rep < 2 else 'dumb')
                 o = sim.run()
             runs.append({'history': sha(json.dumps(sim.history)), 'halt': o['halt'],
                          'trap': o['trap'], 'ticks': o['ticks'], 'exc': (o['exc'] or {}).get('type'),
